@@ -61,9 +61,14 @@ func c02(r *rep.Run) {
 		aliasMax = 6
 	}
 	progs = withAliases(progs, aliasMax)
+	progs = withMerged(progs, 5)
 	r.Cov["programs_incl_alias_spellings"] = len(progs)
 	hs := harnesses(r.Workers)
 	base := optMatrix(0, 1)
+	for _, o := range optMatrix(0) {
+		o.Undef = 1 // every variable resolved by name (undefined-variable mode)
+		base = append(base, o)
+	}
 	roSets := []int{8, 15}
 	if r.Thorough() {
 		roSets = []int{8, 10, 13, 15}
@@ -91,7 +96,7 @@ func c02(r *rep.Run) {
 			}
 			var want string
 			for k := range cs {
-				if cs[k].o.OptBits() == b && cs[k].o.Events == 0 && cs[k].o.Costs == nil {
+				if cs[k].o.OptBits() == b && cs[k].o.Events == 0 && cs[k].o.Costs == nil && cs[k].o.Undef == 0 {
 					want = eval.Dump(cs[k].e) + "\n" + eval.DumpTable(cs[k].e, false)
 				}
 			}
